@@ -1,9 +1,9 @@
 (* C16, source level: running the terms GENERATED from src/element.rs (Generated/ElementRs.v)
    in the RustElem evaluator computes the model functions of Model/Element.v. *)
-From XSG.Model Require Import Strings Necessity Element RustElem.
+From XSG.Model Require Import Strings Chars Convert Necessity Element RustElem.
 From XSG.Generated Require Import ElementRs.
-From XSG.Proofs Require Import ElementProofs.
-From Coq Require Import String List Arith.
+From XSG.Proofs Require Import StringsProofs ElementProofs.
+From Coq Require Import String List Arith NArith Lia.
 Import ListNotations.
 Open Scope string_scope.
 
@@ -338,3 +338,53 @@ Lemma merge_attr_rs_correct : forall e l,
   run_fn no_call merge_attr_rs (VElem e) (VAttrs l)
   = Some (VElem (merge_attr e l), VElem (merge_attr e l)).
 Proof. intros [n t x k a c p] l. reflexivity. Qed.
+
+(* ---------- two helpers of the renderer ---------- *)
+Lemma contains_only_text_rs_correct : forall e,
+  run_fn no_call contains_only_text_rs (VElem e) VUnit = Some (VBool (contains_only_text e), VElem e).
+Proof. intros [n t x k a c p]. destruct t, a, c; reflexivity. Qed.
+
+(* `text.find(':')` as the evaluator computes it *)
+Fixpoint find_colon (l : str) (i : nat) : val :=
+  match l with
+  | [] => VNone
+  | d :: r => if (d =? 58)%N then VSomeNat i else find_colon r (S i)
+  end.
+
+Lemma find_char_upto : forall x i,
+  match upto_colon x with
+  | Some p => exists k, find_colon x i = VSomeNat (i + k) /\ p = firstn (S k) x /\ (k < List.length x)%nat
+  | None => find_colon x i = VNone
+  end.
+Proof.
+  induction x as [|d r IH]; intros i; cbn [upto_colon find_colon].
+  - reflexivity.
+  - unfold colon. destruct (d =? 58)%N eqn:E.
+    + exists 0%nat. rewrite Nat.add_0_r. split; [reflexivity|]. split; [reflexivity|]. simpl. apply Nat.lt_0_succ.
+    + specialize (IH (S i)). destruct (upto_colon r) as [p|]; cbn [option_map].
+      * destruct IH as (k & Hf & Hp & Hk). exists (S k). rewrite Hf, Hp.
+        split; [f_equal; rewrite <- plus_n_Sm; reflexivity|]. split; [reflexivity|].
+        simpl. apply -> Nat.succ_lt_mono. exact Hk.
+      * exact IH.
+Qed.
+
+Lemma starts_with_xmlns_rs_correct : forall x,
+  run_fn no_call starts_with_xmlns_rs (VName x) VUnit = Some (VBool (starts_with_xmlns x), VName x).
+Proof.
+  intros x. unfold run_fn, starts_with_xmlns_rs. cbn [fn_body fn_p1 fn_p2 fn_result exec].
+  cbn [lookup String.eqb Ascii.eqb Bool.eqb].
+  cbn [eval lookup String.eqb Ascii.eqb Bool.eqb].
+  change ((fix find (l : str) (i : nat) {struct l} : val :=
+             match l with
+             | [] => VNone
+             | d :: r => if (d =? 58)%N then VSomeNat i else find r (S i)
+             end) x 0%nat) with (find_colon x 0%nat).
+  unfold starts_with_xmlns. pose proof (find_char_upto x 0%nat) as H.
+  destruct (upto_colon x) as [p|].
+  - destruct H as (k & Hf & Hp & Hk). rewrite Hf. cbn [Nat.add].
+    cbn [eval lookup String.eqb Ascii.eqb Bool.eqb].
+    apply Nat.ltb_lt in Hk. rewrite Hk. rewrite <- Hp.
+    cbn [lookup String.eqb Ascii.eqb Bool.eqb].
+    rewrite (str_eqb_sym (s "xmlns:") p). reflexivity.
+  - rewrite H. cbn [eval lookup String.eqb Ascii.eqb Bool.eqb]. reflexivity.
+Qed.
